@@ -3,4 +3,251 @@ import PyCliffordModel.Model.Parse
 /-! # Proofs/ParseLemmas — helper lemmas for C20 (the parser loop with the shift counter `h`) -/
 namespace PC
 
+/-! ## list facts -/
+
+theorem getQ_append_mid (pre rest : PStr) (a : Q) : getQ (pre ++ a :: rest) pre.length = a := by
+  induction pre with
+  | nil => rfl
+  | cons b pre ih => simp [getQ]
+
+theorem setQ_append_mid (pre rest : PStr) (a q : Q) :
+    setQ (pre ++ a :: rest) pre.length q = pre ++ q :: rest := by
+  induction pre with
+  | nil => rfl
+  | cons b pre ih => simp [setQ]
+
+/-! ## items of `enumerate` with an explicit start index -/
+
+/-- `enumerate(toks, start = o)` -/
+def itemsFrom : Nat → List Tok → List (Int × Tok)
+  | _, [] => []
+  | o, t :: ts => ((o : Int), t) :: itemsFrom (o + 1) ts
+
+theorem mapIdx_eq_itemsFrom (toks : List Tok) (o : Nat) :
+    toks.mapIdx (fun i t => (((i + o : Nat) : Int), t)) = itemsFrom o toks := by
+  induction toks generalizing o with
+  | nil => rfl
+  | cons t ts ih =>
+    rw [List.mapIdx_cons, itemsFrom]
+    have h : (fun i t => (((i + 1 + o : Nat) : Int), t)) = fun i (t : Tok) => (((i + (o + 1) : Nat) : Int), t) := by
+      funext i t; congr 2; omega
+    rw [h, ih (o + 1)]
+    simp
+
+theorem enum_eq_itemsFrom (toks : List Tok) :
+    toks.mapIdx (fun i t => ((i : Int), t)) = itemsFrom 0 toks := by
+  simpa using mapIdx_eq_itemsFrom toks 0
+
+theorem mapIdx_map_eq_itemsFrom {α : Type} (f : α → Tok) (l : List α) (o : Nat) :
+    l.mapIdx (fun i a => (((i + o : Nat) : Int), f a)) = itemsFrom o (l.map f) := by
+  induction l generalizing o with
+  | nil => rfl
+  | cons a l ih =>
+    rw [List.mapIdx_cons, List.map_cons, itemsFrom]
+    have h : (fun i a => (((i + 1 + o : Nat) : Int), f a)) = fun i (a : α) => (((i + (o + 1) : Nat) : Int), f a) := by
+      funext i a; congr 2; omega
+    rw [h, ih (o + 1)]
+    simp
+
+theorem enum_map_eq_itemsFrom {α : Type} (f : α → Tok) (l : List α) :
+    l.mapIdx (fun i a => ((i : Int), f a)) = itemsFrom 0 (l.map f) := by
+  simpa using mapIdx_map_eq_itemsFrom f l 0
+
+theorem itemsFrom_append (o : Nat) (a b : List Tok) :
+    itemsFrom o (a ++ b) = itemsFrom o a ++ itemsFrom (o + a.length) b := by
+  induction a generalizing o with
+  | nil => rfl
+  | cons t ts ih =>
+    simp only [List.cons_append, itemsFrom, ih, List.length_cons]
+    congr 3; omega
+
+theorem parseLoop_append (N : Nat) (s : ParseSt) (a b : List (Int × Tok)) :
+    parseLoop N s (a ++ b) = (parseLoop N s a).bind fun s' => parseLoop N s' b := by
+  induction a generalizing s with
+  | nil => rfl
+  | cons it a ih =>
+    obtain ⟨i, mu⟩ := it
+    simp only [List.cons_append, parseLoop]
+    cases parseStep N s i mu with
+    | none => rfl
+    | some s' => exact ih s'
+
+theorem parseSeq_eq (toks : List Tok) :
+    parseSeq toks = parseItems toks.length (itemsFrom 0 toks) := by
+  rw [parseSeq, enum_eq_itemsFrom]
+
+/-! ## one loop iteration on a letter -/
+
+/-- `mu` is the letter (character or code `0..3`) of the qubit `q` -/
+def IsLetter (mu : Tok) (q : Q) : Prop := mu = .ch (reprQ q) ∨ mu = .code (tokQ q)
+
+theorem isLetter_ch (q : Q) : IsLetter (.ch (reprQ q)) q := .inl rfl
+theorem isLetter_code (q : Q) : IsLetter (.code (tokQ q)) q := .inr rfl
+
+theorem tokQ_II : tokQ (false, false) = 0 := by decide
+theorem tokQ_X : tokQ (true, false) = 1 := by decide
+theorem tokQ_Y : tokQ (true, true) = 2 := by decide
+theorem tokQ_Z : tokQ (false, true) = 3 := by decide
+
+/-- a letter at index `k + h` writes the qubit `k` (which is still the identity) and leaves `h`, `p` -/
+theorem parseStep_letter (N h : Nat) (p : Int) (pre rest : PStr) (q : Q) (mu : Tok)
+    (hmu : IsLetter mu q) (hN : pre.length < N) :
+    parseStep N ⟨pre ++ (false, false) :: rest, h, p⟩ ((pre.length + h : Nat) : Int) mu
+      = some ⟨pre ++ q :: rest, h, p⟩ := by
+  have hlt : ((pre.length : Nat) : Int) < (N : Int) := by omega
+  obtain ⟨x, z⟩ := q
+  rcases hmu with rfl | rfl <;> cases x <;> cases z <;>
+    simp [parseStep, hlt, reprQ, tokQ_II, tokQ_X, tokQ_Y, tokQ_Z,
+      getQ_append_mid, setQ_append_mid]
+
+/-- the loop over the letters of `g'`, starting at qubit `pre.length` (index `pre.length + h`) -/
+theorem parseLoop_letters (N h : Nat) (p : Int) (f : Q → Tok) (hf : ∀ q, IsLetter (f q) q) :
+    ∀ (g' pre : PStr) (m : Nat), g'.length ≤ m → pre.length + g'.length ≤ N →
+      parseLoop N ⟨pre ++ idStr m, h, p⟩ (itemsFrom (pre.length + h) (g'.map f))
+        = some ⟨pre ++ g' ++ idStr (m - g'.length), h, p⟩ := by
+  intro g'
+  induction g' with
+  | nil => intro pre m _ _; simp [itemsFrom, parseLoop]
+  | cons q g' ih =>
+    intro pre m hm hN
+    obtain ⟨m, rfl⟩ : ∃ m', m = m' + 1 := ⟨m - 1, by simp at hm; omega⟩
+    simp only [List.length_cons] at hm hN
+    rw [idStr_succ, List.map_cons, itemsFrom, parseLoop,
+      parseStep_letter N h p pre (idStr m) q (f q) (hf q) (by omega)]
+    have h1 : pre ++ q :: idStr m = (pre ++ [q]) ++ idStr m := by simp
+    have h2 : pre.length + h + 1 = (pre ++ [q]).length + h := by simp; omega
+    rw [h1, h2]
+    show parseLoop N _ _ = _
+    rw [ih (pre ++ [q]) m (by omega) (by simp; omega)]
+    simp
+
+/-! ## whole descriptions -/
+
+/-- sign/phase prefix `pf` (consumed with `h = pf.length`, phase `p`), then the letters of `g` -/
+theorem parseSeq_prefix_letters (pf : List Tok) (p : Int)
+    (hpf : ∀ (N : Nat) (G : PStr), pf.length ≤ N →
+      parseLoop N ⟨G, 0, 0⟩ (itemsFrom 0 pf) = some ⟨G, pf.length, p⟩)
+    (f : Q → Tok) (hf : ∀ q, IsLetter (f q) q) (g : PStr) :
+    parseSeq (pf ++ g.map f) = .ok ⟨g, p⟩ := by
+  have hlen : (pf ++ g.map f).length = pf.length + g.length := by simp
+  rw [parseSeq_eq, parseItems, itemsFrom_append, parseLoop_append, hlen, hpf _ _ (by omega)]
+  have h := parseLoop_letters (pf.length + g.length) pf.length p f hf g [] (pf.length + g.length)
+    (by omega) (by simp)
+  simp only [List.nil_append, List.length_nil, Nat.zero_add] at h
+  simp only [Option.bind_some, Nat.zero_add, h]
+  simp
+
+/-- the letters of `g`, then one trailing phase symbol `t` (as in `pauli_tokenize`) -/
+theorem parseSeq_letters_suffix (t : Tok) (p : Int)
+    (ht : ∀ (N k : Nat) (G : PStr), k < N →
+      parseStep N ⟨G, 0, 0⟩ (k : Int) t = some ⟨G, 1, p⟩)
+    (f : Q → Tok) (hf : ∀ q, IsLetter (f q) q) (g : PStr) :
+    parseSeq (g.map f ++ [t]) = .ok ⟨g, p⟩ := by
+  have hlen : (g.map f ++ [t]).length = g.length + 1 := by simp
+  rw [parseSeq_eq, parseItems, itemsFrom_append, parseLoop_append, hlen]
+  have h := parseLoop_letters (g.length + 1) 0 0 f hf g [] (g.length + 1) (by omega) (by simp)
+  simp only [List.nil_append, List.length_nil, Nat.zero_add] at h
+  simp only [h, Option.bind_some, List.length_map, Nat.zero_add, itemsFrom, parseLoop,
+    ht (g.length + 1) g.length _ (by omega)]
+  simp
+
+/-- the dict description: only the non-identity qubits, each at its own position, `h = 0` -/
+theorem parseLoop_dict (N : Nat) (p : Int) :
+    ∀ (g' pre : PStr) (m : Nat), g'.length ≤ m → pre.length + g'.length ≤ N →
+      parseLoop N ⟨pre ++ idStr m, 0, p⟩
+        ((itemsFrom pre.length (g'.map fun q => Tok.code (tokQ q))).filter
+          fun it => it.2 != Tok.code 0)
+        = some ⟨pre ++ g' ++ idStr (m - g'.length), 0, p⟩ := by
+  intro g'
+  induction g' with
+  | nil => intro pre m _ _; simp [itemsFrom, parseLoop]
+  | cons q g' ih =>
+    intro pre m hm hN
+    obtain ⟨m, rfl⟩ : ∃ m', m = m' + 1 := ⟨m - 1, by simp at hm; omega⟩
+    simp only [List.length_cons] at hm hN
+    have h1 : pre ++ q :: idStr m = (pre ++ [q]) ++ idStr m := by simp
+    have h2 : pre.length + 1 = (pre ++ [q]).length := by simp
+    have hfin : pre ++ [q] ++ g' ++ idStr (m - g'.length)
+        = pre ++ q :: g' ++ idStr (m + 1 - (q :: g').length) := by simp
+    rw [List.map_cons, itemsFrom, List.filter_cons]
+    by_cases hq : q = (false, false)
+    · subst hq
+      have hc : ((Tok.code (tokQ (false, false)) != Tok.code 0) = true) = False := by
+        simp [tokQ_II]
+      simp only [hc, if_false]
+      rw [idStr_succ, h1, h2, ih (pre ++ [(false, false)]) m (by omega) (by simp; omega), hfin]
+    · have hc : (Tok.code (tokQ q) != Tok.code 0) = true := by
+        obtain ⟨x, z⟩ := q
+        cases x <;> cases z <;> simp_all [tokQ_X, tokQ_Y, tokQ_Z]
+      have hs := parseStep_letter N 0 p pre (idStr m) q _ (isLetter_code q) (by omega)
+      simp only [Nat.add_zero] at hs
+      simp only [hc, if_true, parseLoop, idStr_succ, hs]
+      rw [h1, h2, ih (pre ++ [q]) m (by omega) (by simp; omega), hfin]
+
+/-! ## sign / phase symbols -/
+
+/-- what a non-letter symbol does to the phase: `+`/4 → 0, `-`/5 → 2, `i` → `p+1`, 6 → 1, 7 → 3, other → `p` -/
+def prefixPhase (mu : Tok) (p : Int) : Int :=
+  if mu = .code 4 ∨ mu = .ch '+' then 0
+  else if mu = .code 5 ∨ mu = .ch '-' then 2
+  else if mu = .ch 'i' then p + 1
+  else if mu = .code 6 then 1
+  else if mu = .code 7 then 3
+  else p
+
+/-- `mu` is not one of the letters `I X Y Z` / `0 1 2 3` -/
+def NotLetter (mu : Tok) : Prop :=
+  mu ≠ .code 0 ∧ mu ≠ .ch 'I' ∧ mu ≠ .code 1 ∧ mu ≠ .ch 'X' ∧
+  mu ≠ .code 2 ∧ mu ≠ .ch 'Y' ∧ mu ≠ .code 3 ∧ mu ≠ .ch 'Z'
+
+instance (mu : Tok) : Decidable (NotLetter mu) := by unfold NotLetter; infer_instance
+
+/-- a non-letter symbol at index `k + h` (`k < N`) only increases `h` and updates the phase -/
+theorem parseStep_prefix (N h k : Nat) (p : Int) (G : PStr) (mu : Tok) (hmu : NotLetter mu)
+    (hN : k < N) :
+    parseStep N ⟨G, h, p⟩ ((k + h : Nat) : Int) mu = some ⟨G, h + 1, prefixPhase mu p⟩ := by
+  obtain ⟨h0, h1, h2, h3, h4, h5, h6, h7⟩ := hmu
+  have hlt : ((k + h : Nat) : Int) - (h : Int) < (N : Int) := by omega
+  simp only [parseStep, hlt, prefixPhase]
+  simp [h0, h1, h2, h3, h4, h5, h6, h7]
+  by_cases c1 : mu = .code 4 ∨ mu = .ch '+'
+  · simp only [c1, if_true]
+  by_cases c2 : mu = .code 5 ∨ mu = .ch '-'
+  · simp only [c1, c2, if_true, if_false]
+  by_cases c3 : mu = .ch 'i'
+  · rw [if_neg c1, if_neg c1, if_neg c2, if_neg c2, if_pos c3, if_pos c3]
+  by_cases c4 : mu = .code 6
+  · rw [if_neg c1, if_neg c1, if_neg c2, if_neg c2, if_neg c3, if_neg c3, if_pos c4, if_pos c4]
+  by_cases c5 : mu = .code 7
+  · rw [if_neg c1, if_neg c1, if_neg c2, if_neg c2, if_neg c3, if_neg c3, if_neg c4, if_neg c4,
+      if_pos c5, if_pos c5]
+  · simp only [c1, c2, c3, c4, c5, if_false]
+
+/-- a list of non-letter symbols at the start of a description is consumed with `h` = its length;
+    the phase is the fold of `prefixPhase` -/
+theorem parseLoop_prefix (N : Nat) (G : PStr) :
+    ∀ (pf : List Tok) (h : Nat) (p : Int), (∀ mu ∈ pf, NotLetter mu) → h + pf.length ≤ N →
+      parseLoop N ⟨G, h, p⟩ (itemsFrom h pf)
+        = some ⟨G, h + pf.length, pf.foldl (fun p mu => prefixPhase mu p) p⟩ := by
+  intro pf
+  induction pf with
+  | nil => intro h p _ _; rfl
+  | cons mu pf ih =>
+    intro h p hnl hN
+    simp only [List.length_cons] at hN
+    have hs := parseStep_prefix N h 0 p G mu (hnl mu (by simp)) (by omega)
+    simp only [Nat.zero_add] at hs
+    simp only [itemsFrom, parseLoop, hs, List.foldl_cons, List.length_cons]
+    rw [ih (h + 1) _ (fun m hm => hnl m (by simp [hm])) (by omega)]
+    congr 2; omega
+
+/-- prefix `pf` of non-letter symbols, then the letters of `g` -/
+theorem parseSeq_prefix (pf : List Tok) (hnl : ∀ mu ∈ pf, NotLetter mu)
+    (f : Q → Tok) (hf : ∀ q, IsLetter (f q) q) (g : PStr) :
+    parseSeq (pf ++ g.map f) = .ok ⟨g, pf.foldl (fun p mu => prefixPhase mu p) 0⟩ := by
+  apply parseSeq_prefix_letters pf _ _ f hf g
+  intro N G hN
+  have h := parseLoop_prefix N G pf 0 0 hnl (by omega)
+  simpa using h
+
 end PC
